@@ -82,6 +82,27 @@ func mentions(n ast.Node, pred func(ast.Node) bool) bool {
 	return found
 }
 
+// joinKind classifies the directory a `filepath.Join(goPath, "src", …)` denotes.
+func joinKind(e ast.Expr) string {
+	call, ok := e.(*ast.CallExpr)
+	if !ok || !isSel(call.Fun, "filepath", "Join") || len(call.Args) < 3 || exprString(call.Args[0]) != "goPath" {
+		return "other"
+	}
+	rest := call.Args[2:]
+	switch {
+	case len(rest) == 2 && exprString(rest[0]) == "rPath" && exprString(rest[1]) == "importPath":
+		return "vendor"
+	case len(rest) == 1 && exprString(rest[0]) == "importPath":
+		return "gopath"
+	case len(rest) == 1:
+		if c, ok := rest[0].(*ast.CallExpr); ok && exprString(c.Fun) == "effectivePkg" && len(c.Args) == 2 &&
+			exprString(c.Args[0]) == "root" && exprString(c.Args[1]) == "importPath" {
+			return "eff"
+		}
+	}
+	return "other"
+}
+
 func main() {
 	common.Main("C16", func(repo string) (string, error) {
 		fset, f, err := common.ParseFile(repo, "interp/src.go")
@@ -97,65 +118,130 @@ func main() {
 		vendorConst := constStr(f, "vendor")
 		mainID := constStr(fi, "mainID")
 		defaultName := constStr(fi, "DefaultSourceName")
+		noRoot := constStr(f, "noRoot")
 		vendorDir, src, vendorLit := "unrecognised: pkgDir vendor literal", "unrecognised: pkgDir src literal", "unrecognised: previousRoot literal"
-		vendorFirst := "false"
+		vendorFirst, effCandidate, candMustBeDir := "false", "false", "false"
 		pd := common.FindFunc(f, "Interpreter", "pkgDir")
 		if pd != nil && pd.Body != nil {
 			srcs := map[string]bool{}
-			idxVendor, idxEff := -1, -1
-			for i, st := range pd.Body.List {
-				as, ok := st.(*ast.AssignStmt)
-				if !ok || len(as.Rhs) != 1 {
-					continue
-				}
-				call, ok := as.Rhs[0].(*ast.CallExpr)
-				if !ok || !isSel(call.Fun, "filepath", "Join") {
-					continue
-				}
-				lhs := exprString(as.Lhs[0])
-				if lhs == "rPath" && len(call.Args) == 2 && exprString(call.Args[0]) == "root" {
-					if s, ok := unq(call.Args[1]); ok {
-						vendorDir = s
-					}
-				}
-				if len(call.Args) >= 2 && exprString(call.Args[0]) == "goPath" {
+			// every Join(goPath, X, …) of the function names the same X
+			ast.Inspect(pd.Body, func(n ast.Node) bool {
+				call, ok := n.(*ast.CallExpr)
+				if ok && isSel(call.Fun, "filepath", "Join") && len(call.Args) >= 2 && exprString(call.Args[0]) == "goPath" {
 					if s, ok := unq(call.Args[1]); ok {
 						srcs[s] = true
 					} else {
 						srcs["unrecognised: second argument of Join(goPath, …)"] = true
 					}
 				}
-				if lhs == "dir" {
-					usesRPath := false
-					for _, a := range call.Args {
-						if exprString(a) == "rPath" {
-							usesRPath = true
-						}
-					}
-					usesEff := mentions(call, func(n ast.Node) bool {
-						c, ok := n.(*ast.CallExpr)
-						return ok && exprString(c.Fun) == "effectivePkg"
-					})
-					if usesRPath && idxVendor < 0 {
-						idxVendor = i
-					}
-					if usesEff && idxEff < 0 {
-						idxEff = i
-					}
-				}
-			}
+				return true
+			})
 			if len(srcs) == 1 {
 				for s := range srcs {
 					src = s
 				}
 			}
-			if idxVendor >= 0 && idxEff >= 0 {
-				vendorFirst = fmt.Sprint(idxVendor < idxEff)
-			} else {
-				vendorDir = "unrecognised: the two attempts of pkgDir"
+			for _, st := range pd.Body.List {
+				as, ok := st.(*ast.AssignStmt)
+				if !ok || len(as.Rhs) != 1 || len(as.Lhs) != 1 {
+					continue
+				}
+				call, ok := as.Rhs[0].(*ast.CallExpr)
+				if ok && isSel(call.Fun, "filepath", "Join") && exprString(as.Lhs[0]) == "rPath" && len(call.Args) == 2 && exprString(call.Args[0]) == "root" {
+					if s, ok := unq(call.Args[1]); ok {
+						vendorDir = s
+					}
+				}
+			}
+			// the `root == noRoot` branch: root, rPath, dir = "", "", Join(goPath, "src", importPath)
+			noRootOK := false
+			for _, st := range pd.Body.List {
+				ifs, ok := st.(*ast.IfStmt)
+				if !ok || ifs.Init != nil || ifs.Else != nil || len(ifs.Body.List) != 1 {
+					continue
+				}
+				be, ok := ifs.Cond.(*ast.BinaryExpr)
+				if !ok || be.Op != token.EQL || exprString(be.X) != "root" || exprString(be.Y) != "noRoot" {
+					continue
+				}
+				as, ok := ifs.Body.List[0].(*ast.AssignStmt)
+				if !ok || len(as.Lhs) != 3 || len(as.Rhs) != 3 {
+					continue
+				}
+				if exprString(as.Lhs[0]) == "root" && exprString(as.Lhs[1]) == "rPath" && exprString(as.Lhs[2]) == "dir" &&
+					exprString(as.Rhs[0]) == `""` && exprString(as.Rhs[1]) == `""` && joinKind(as.Rhs[2]) == "gopath" {
+					noRootOK = true
+				}
+			}
+			if !noRootOK {
+				noRoot = "absent: no `root == noRoot` branch in pkgDir (" + noRoot + ")"
+			}
+			// the attempts: every `if <candidate test> { return dir, …, nil }`, with the single assignment to
+			// dir that precedes it, the test it uses and whether it sits under `if root == ""`
+			type attempt struct{ what, test, guard string }
+			var atts []attempt
+			var lastDir string
+			var walk func(list []ast.Stmt, guard string)
+			walk = func(list []ast.Stmt, guard string) {
+				for _, st := range list {
+					switch v := st.(type) {
+					case *ast.AssignStmt:
+						if len(v.Lhs) == 1 && len(v.Rhs) == 1 && exprString(v.Lhs[0]) == "dir" {
+							lastDir = joinKind(v.Rhs[0])
+						}
+					case *ast.IfStmt:
+						test := ""
+						if c, ok := v.Cond.(*ast.CallExpr); ok && exprString(c.Fun) == "isDir" && len(c.Args) == 2 && exprString(c.Args[1]) == "dir" && v.Init == nil {
+							test = "isDir"
+						}
+						if as, ok := v.Init.(*ast.AssignStmt); ok && len(as.Rhs) == 1 {
+							if c, ok := as.Rhs[0].(*ast.CallExpr); ok && isSel(c.Fun, "fs", "Stat") && len(c.Args) == 2 && exprString(c.Args[1]) == "dir" {
+								if be, ok := v.Cond.(*ast.BinaryExpr); ok && be.Op == token.EQL && exprString(be.X) == "err" && exprString(be.Y) == "nil" {
+									test = "stat"
+								}
+							}
+						}
+						returnsDir := false
+						for _, s := range v.Body.List {
+							if r, ok := s.(*ast.ReturnStmt); ok && len(r.Results) == 3 && exprString(r.Results[0]) == "dir" && exprString(r.Results[2]) == "nil" {
+								returnsDir = true
+							}
+						}
+						if test != "" && returnsDir {
+							atts = append(atts, attempt{lastDir, test, guard})
+							continue
+						}
+						if be, ok := v.Cond.(*ast.BinaryExpr); ok && v.Init == nil && be.Op == token.EQL && exprString(be.X) == "root" && exprString(be.Y) == `""` {
+							walk(v.Body.List, "root-empty")
+						}
+					}
+				}
+			}
+			walk(pd.Body.List, "always")
+			shape := ""
+			for _, a := range atts {
+				shape += a.what + "/" + a.test + "/" + a.guard + " "
+			}
+			switch strings.TrimSpace(shape) {
+			case "vendor/isDir/always gopath/isDir/root-empty":
+				vendorFirst, effCandidate, candMustBeDir = "true", "false", "true"
+			case "vendor/stat/always gopath/stat/root-empty":
+				vendorFirst, effCandidate, candMustBeDir = "true", "false", "false"
+			case "vendor/isDir/always eff/isDir/always":
+				vendorFirst, effCandidate, candMustBeDir = "true", "true", "true"
+			case "vendor/stat/always eff/stat/always":
+				vendorFirst, effCandidate, candMustBeDir = "true", "true", "false"
+			case "eff/stat/always vendor/stat/always":
+				vendorFirst, effCandidate, candMustBeDir = "false", "true", "false"
+			case "eff/isDir/always vendor/isDir/always":
+				vendorFirst, effCandidate, candMustBeDir = "false", "true", "true"
+			default:
+				vendorDir = "unrecognised: the attempts of pkgDir: " + shape
 			}
 		}
+		vendorFileStops := "false"
 		if pr := common.FindFunc(f, "", "previousRoot"); pr != nil {
+			seenErrTest := false
 			ast.Inspect(pr, func(n ast.Node) bool {
 				be, ok := n.(*ast.BinaryExpr)
 				if ok && be.Op == token.EQL {
@@ -165,16 +251,57 @@ func main() {
 						}
 					}
 				}
+				// `if !errors.Is(err, fs.ErrNotExist) { return "", err }`: with a nil error (a regular file
+				// named vendor) this returns; `err != nil && …` goes on with the walk
+				if ifs, ok := n.(*ast.IfStmt); ok && mentions(ifs.Cond, func(x ast.Node) bool {
+					c, ok := x.(*ast.CallExpr)
+					return ok && exprString(c.Fun) == "errors.Is"
+				}) {
+					seenErrTest = true
+					switch c := ifs.Cond.(type) {
+					case *ast.UnaryExpr:
+						vendorFileStops = "true"
+					case *ast.BinaryExpr:
+						if l, ok := c.X.(*ast.BinaryExpr); ok && c.Op == token.LAND && l.Op == token.NEQ && exprString(l.X) == "err" && exprString(l.Y) == "nil" {
+							if _, ok := c.Y.(*ast.UnaryExpr); ok {
+								vendorFileStops = "false"
+								break
+							}
+						}
+						vendorLit = "unrecognised: the error test of previousRoot"
+					default:
+						vendorLit = "unrecognised: the error test of previousRoot"
+					}
+				}
 				return true
 			})
+			if !seenErrTest {
+				vendorLit = "unrecognised: no error test in previousRoot"
+			}
 		}
 
-		// ---- gta.go importSpec: `if packageName := path.Base(ipath); path.Dir(ipath) == packageName { ipath = packageName }`
-		gtaCollapse := "false"
+		// ---- gta.go importSpec: the rewriting of "x/x" to "x" (unconditional before the repair of F16-7,
+		// now only for a loaded binary package) and of relative import paths (F16-10)
+		gtaCollapse, relKey := "false", "false"
 		if _, fg, err := common.ParseFile(repo, "interp/gta.go"); err == nil {
 			ast.Inspect(fg, func(n ast.Node) bool {
 				ifs, ok := n.(*ast.IfStmt)
-				if !ok || ifs.Init == nil {
+				if !ok {
+					return true
+				}
+				if c, ok := ifs.Cond.(*ast.CallExpr); ok && ifs.Init == nil && exprString(c.Fun) == "isPathRelative" && len(c.Args) == 1 && exprString(c.Args[0]) == "ipath" {
+					for _, st := range ifs.Body.List {
+						a, ok := st.(*ast.AssignStmt)
+						if !ok || len(a.Lhs) != 2 || len(a.Rhs) != 2 || exprString(a.Lhs[0]) != "ipath" || exprString(a.Lhs[1]) != "rpath" || exprString(a.Rhs[1]) != "mainID" {
+							continue
+						}
+						if c, ok := a.Rhs[0].(*ast.CallExpr); ok && exprString(c.Fun) == "relativePath" && len(c.Args) == 2 && exprString(c.Args[0]) == "rpath" && exprString(c.Args[1]) == "ipath" {
+							relKey = "true"
+						}
+					}
+					return true
+				}
+				if ifs.Init == nil {
 					return true
 				}
 				as, ok := ifs.Init.(*ast.AssignStmt)
@@ -187,7 +314,7 @@ func main() {
 				}
 				be, ok := ifs.Cond.(*ast.BinaryExpr)
 				if !ok || be.Op != token.EQL {
-					return true
+					return true // `… && interp.binPkg[packageName] != nil`: source packages are not concerned
 				}
 				l, ok := be.X.(*ast.CallExpr)
 				if !ok || exprString(l.Fun) != "path.Dir" || exprString(be.Y) != "packageName" {
@@ -215,7 +342,9 @@ func main() {
 				evs = append(evs, ev{p, l})
 			}
 		}
-		var fsCalls, osCalls []string
+		var fsCalls, osCalls, wdCalls []string
+		var resolveCalls []*ast.CallExpr
+		relSub := "false"
 		is := common.FindFunc(f, "Interpreter", "importSrc")
 		if is != nil {
 			ast.Inspect(is, func(n ast.Node) bool {
@@ -226,6 +355,34 @@ func main() {
 						return ok && exprString(e) == "interp.srcPkg[importPath]"
 					}) {
 						add(v.Pos(), "srcPkg-test")
+					}
+					// `else if i := strings.LastIndex("/"+importPath, "/vendor/"); i >= 0 { return "", … }`
+					if as, ok := v.Init.(*ast.AssignStmt); ok && len(as.Rhs) == 1 {
+						if c, ok := as.Rhs[0].(*ast.CallExpr); ok && exprString(c.Fun) == "strings.LastIndex" && len(c.Args) == 2 {
+							lit, _ := unq(c.Args[1])
+							arg, okb := c.Args[0].(*ast.BinaryExpr)
+							be, okc := v.Cond.(*ast.BinaryExpr)
+							ret := false
+							for _, s := range v.Body.List {
+								if _, ok := s.(*ast.ReturnStmt); ok {
+									ret = true
+								}
+							}
+							if okb && okc && arg.Op == token.ADD && exprString(arg.X) == `"/"` && exprString(arg.Y) == "importPath" &&
+								lit == "/"+vendorConst+"/" && be.Op == token.GEQ && exprString(be.Y) == "0" && ret {
+								add(v.Pos(), "vendor-test")
+							}
+						}
+					}
+					// `if isPathRelative(importPath) { subRPath = relativePath(rPath, importPath) }`
+					if c, ok := v.Cond.(*ast.CallExpr); ok && v.Init == nil && exprString(c.Fun) == "isPathRelative" && len(c.Args) == 1 && exprString(c.Args[0]) == "importPath" {
+						for _, s := range v.Body.List {
+							if a, ok := s.(*ast.AssignStmt); ok && len(a.Lhs) == 1 && len(a.Rhs) == 1 && exprString(a.Lhs[0]) == "subRPath" {
+								if rc, ok := a.Rhs[0].(*ast.CallExpr); ok && exprString(rc.Fun) == "relativePath" && len(rc.Args) == 2 && exprString(rc.Args[0]) == "rPath" && exprString(rc.Args[1]) == "importPath" {
+									relSub = "true"
+								}
+							}
+						}
 					}
 					if mentions(v.Cond, func(x ast.Node) bool {
 						e, ok := x.(ast.Expr)
@@ -251,8 +408,9 @@ func main() {
 					}
 				case *ast.CallExpr:
 					switch exprString(v.Fun) {
-					case "interp.pkgDir":
+					case "interp.pkgDir", "interp.goPkgDir":
 						add(v.Pos(), "resolve")
+						resolveCalls = append(resolveCalls, v)
 					case "interp.gta":
 						add(v.Pos(), "gta")
 					}
@@ -266,8 +424,81 @@ func main() {
 			order = append(order, e.label)
 		}
 
+		// which function resolves, and from which root (first call: mainRoot(rPath) or rPath itself)
+		goFilesSkip, mainRootArg, rejectVendor := "false", "false", "false"
+		sort.Slice(resolveCalls, func(i, j int) bool { return resolveCalls[i].Pos() < resolveCalls[j].Pos() })
+		nGo := 0
+		for _, c := range resolveCalls {
+			if exprString(c.Fun) == "interp.goPkgDir" {
+				nGo++
+			}
+		}
+		switch {
+		case len(resolveCalls) == 0:
+			order = append(order, "unrecognised: no call of pkgDir / goPkgDir in importSrc")
+		case nGo == len(resolveCalls):
+			goFilesSkip = "true"
+		case nGo != 0:
+			order = append(order, "unrecognised: importSrc calls both pkgDir and goPkgDir")
+		}
+		if len(resolveCalls) > 0 && len(resolveCalls[0].Args) == 3 {
+			switch a := resolveCalls[0].Args[1].(type) {
+			case *ast.CallExpr:
+				if exprString(a.Fun) == "interp.mainRoot" && len(a.Args) == 1 && exprString(a.Args[0]) == "rPath" {
+					mainRootArg = "true"
+				} else {
+					order = append(order, "unrecognised: the root of importSrc's first resolution")
+				}
+			case *ast.Ident:
+				if a.Name != "rPath" {
+					order = append(order, "unrecognised: the root of importSrc's first resolution")
+				}
+			default:
+				order = append(order, "unrecognised: the root of importSrc's first resolution")
+			}
+		}
+		for i, l := range order {
+			if l == "vendor-test" {
+				for _, m := range order[i:] {
+					if m == "resolve" {
+						rejectVendor = "true"
+					}
+				}
+			}
+		}
+		// mainRoot: `case isPathRelative(rPath): rPath, err = interp.rootFromDir(filepath.Join(filepath.Dir(interp.name), rPath))`
+		relRoot := "false"
+		if mr := common.FindFunc(f, "Interpreter", "mainRoot"); mr != nil {
+			ast.Inspect(mr, func(n ast.Node) bool {
+				cc, ok := n.(*ast.CaseClause)
+				if !ok || len(cc.List) != 1 {
+					return true
+				}
+				c, ok := cc.List[0].(*ast.CallExpr)
+				if !ok || exprString(c.Fun) != "isPathRelative" || len(c.Args) != 1 || exprString(c.Args[0]) != "rPath" {
+					return true
+				}
+				for _, st := range cc.Body {
+					a, ok := st.(*ast.AssignStmt)
+					if !ok || len(a.Lhs) != 2 || len(a.Rhs) != 1 || exprString(a.Lhs[0]) != "rPath" {
+						continue
+					}
+					if rc, ok := a.Rhs[0].(*ast.CallExpr); ok && exprString(rc.Fun) == "interp.rootFromDir" && len(rc.Args) == 1 {
+						if j, ok := rc.Args[0].(*ast.CallExpr); ok && isSel(j.Fun, "filepath", "Join") && len(j.Args) == 2 && exprString(j.Args[1]) == "rPath" {
+							if d, ok := j.Args[0].(*ast.CallExpr); ok && isSel(d.Fun, "filepath", "Dir") && len(d.Args) == 1 && exprString(d.Args[0]) == "interp.name" {
+								relRoot = "true"
+							}
+						}
+					}
+				}
+				return true
+			})
+		}
+
 		// ---- file-system entry points of the resolution functions
-		for _, fn := range [][2]string{{"Interpreter", "importSrc"}, {"Interpreter", "pkgDir"}, {"", "previousRoot"}, {"", "effectivePkg"}} {
+		for _, fn := range [][2]string{{"Interpreter", "importSrc"}, {"Interpreter", "goPkgDir"}, {"", "hasGoFiles"}, {"Interpreter", "pkgDir"},
+			{"", "isDir"}, {"", "previousRoot"}, {"", "effectivePkg"}, {"Interpreter", "rootFromSourceLocation"}, {"Interpreter", "rootFromDir"},
+			{"Interpreter", "mainRoot"}, {"", "relativePath"}} {
 			fd := common.FindFunc(f, fn[0], fn[1])
 			if fd == nil {
 				fsCalls = append(fsCalls, "unrecognised: "+fn[1])
@@ -297,6 +528,11 @@ func main() {
 					}
 				case "os", "ioutil":
 					osCalls = append(osCalls, id.Name+"."+s.Sel.Name)
+				case "filepath":
+					// the only path function that looks outside its arguments: the process's working directory
+					if s.Sel.Name == "Abs" || s.Sel.Name == "EvalSymlinks" || s.Sel.Name == "Glob" || s.Sel.Name == "Walk" || s.Sel.Name == "WalkDir" {
+						wdCalls = append(wdCalls, fn[1]+":filepath."+s.Sel.Name)
+					}
 				}
 				return true
 			})
@@ -320,26 +556,36 @@ func main() {
 namespace YaegiVerif.Generated.C16
 open YaegiVerif.Src
 /-- interp/src.go: const vendor; the literal of previousRoot's second loop; the literals of pkgDir's
-    Joins; interp.go: mainID; order of pkgDir's two attempts -/
+    Joins; const noRoot (with pkgDir's branch for it); interp.go: mainID, DefaultSourceName; the shape of
+    pkgDir's attempts; the decisions of previousRoot, importSrc, mainRoot and gta the model follows -/
 def words : Words :=
   { vendor := %s, vendorLit := %s, vendorDir := %s, src := %s, mainID := %s,
-    defaultName := %s, vendorFirst := %s }
+    defaultName := %s, noRoot := %s, vendorFirst := %s, effCandidate := %s, candMustBeDir := %s,
+    vendorFileStops := %s, goFilesSkip := %s, rejectVendor := %s, mainRoot := %s, relRoot := %s,
+    relKey := %s, relSub := %s }
 /-- importSrc: bookkeeping statements in source order -/
 def importOrder : List String := %s
-/-- io/fs calls (with their file-system argument) in importSrc, pkgDir, previousRoot, effectivePkg -/
+/-- io/fs calls (with their file-system argument) in importSrc, goPkgDir, hasGoFiles, pkgDir, isDir,
+    previousRoot, effectivePkg, rootFromSourceLocation, rootFromDir, mainRoot, relativePath -/
 def fsCalls : List String := %s
 /-- direct os/ioutil calls in the same functions -/
 def osCalls : List String := %s
-/-- gta.go importSpec rewrites an import path whose directory part equals its base ("x/x") to the base -/
+/-- calls of path/filepath functions that consult the process (working directory) or the disk -/
+def wdCalls : List String := %s
+/-- gta.go importSpec rewrites the import path of a source package whose directory part equals its base
+    ("x/x") to the base -/
 def gtaCollapse : Bool := %s
 /-- fingerprints of the functions that Model/Src.lean transcribes -/
 def sourceHashes : List (String × String) :=
   %s
 end YaegiVerif.Generated.C16
 `, common.LeanStr(vendorConst), common.LeanStr(vendorLit), common.LeanStr(vendorDir), common.LeanStr(src), common.LeanStr(mainID),
-			common.LeanStr(defaultName), vendorFirst, common.LeanStrList(order), common.LeanStrList(uniq(fsCalls)), common.LeanStrList(uniq(osCalls)), gtaCollapse,
+			common.LeanStr(defaultName), common.LeanStr(noRoot), vendorFirst, effCandidate, candMustBeDir, vendorFileStops, goFilesSkip, rejectVendor,
+			mainRootArg, relRoot, relKey, relSub,
+			common.LeanStrList(order), common.LeanStrList(uniq(fsCalls)), common.LeanStrList(uniq(osCalls)), common.LeanStrList(uniq(wdCalls)), gtaCollapse,
 			common.HashTable(fset, f, [][2]string{{"Interpreter", "importSrc"}, {"Interpreter", "rootFromSourceLocation"},
-				{"Interpreter", "pkgDir"}, {"", "previousRoot"}, {"", "effectivePkg"}, {"", "isPathRelative"}}))
+				{"Interpreter", "rootFromDir"}, {"Interpreter", "mainRoot"}, {"Interpreter", "goPkgDir"}, {"", "hasGoFiles"},
+				{"Interpreter", "pkgDir"}, {"", "isDir"}, {"", "previousRoot"}, {"", "effectivePkg"}, {"", "relativePath"}, {"", "isPathRelative"}}))
 		return b.String(), nil
 	})
 }
